@@ -75,9 +75,16 @@ def run(chk):
             J, cat = A.gen_matrix(rng, mmax=4 if q else 5, nmax=5)
             c = {"name": name, "params": A.gen_params(rng, name, len(J)), "J": J, "cat": cat}
         else:
-            c = R.gen_case(rng, name, mmax=4 if q else 5, nmax=5, boundary=False, cat=rng.choice(
+            rnd = i // len(NAMES)
+            # the first rounds are not left to chance: every aggregator sees matrices with an all-zero
+            # row (and, where it takes one, a non-uniform preference / weight vector)
+            c = R.gen_case(rng, name, mmax=4 if q else 5, nmax=5, boundary=False, cat="zero_row" if rnd < 3 else rng.choice(
                 ["generic", "conflict", "zero_row", "rank_def", "bad_scale", "stationary", "generic",
                  "antiparallel", "dup_rows", "dominated", "dominated", "zero_row"]))
+            if rnd < 3 and "pref" in c["params"] and len(c["J"]) >= 2:
+                c["params"]["pref"] = None
+                while c["params"]["pref"] is None or len(set(c["params"]["pref"])) < 2:
+                    c["params"]["pref"] = A.gen_pref(rng, len(c["J"]), positive=True)
         J, p = c["J"], c["params"]
         if len(J) < 2:
             continue
